@@ -23,6 +23,10 @@ run_one() {
   done
   git -C /repo worktree remove --force "$WT"
 }
-for d in $IDS; do run_one "$d" & done
+N=0
+for d in $IDS; do
+  run_one "$d" &
+  N=$((N+1)); [ $((N % 12)) -eq 0 ] && wait        # at most 12 scratch trees at a time (memory: one JVM per running check)
+done
 wait
 git -C /repo worktree prune
